@@ -331,6 +331,37 @@ __CPROVER_requires(__CPROVER_is_fresh(aio, sizeof(*aio)))
 __CPROVER_assigns(aio->a_expire, aio->a_use_expire)
 __CPROVER_ensures(aio->a_expire == when && aio->a_use_expire)
 ;
+/* nng_aio_start (provider API, C02): every operation offered through the public wrapper starts CLEAN.
+ * A cancel that lost the race with the completion of the PREVIOUS operation left its code latched
+ * (a_abort); the wrapper discards it (nni_aio_reset) before nni_aio_start looks at the latch, so
+ * "a cancel code is reported only if the operation had not already completed": the decision to accept
+ * does not depend on the stale latch, and a refusal never carries the stale code.  Stop and the
+ * zero / elapsed timeout still refuse, with exactly one completion dispatched. */
+bool nng_aio_start(nng_aio *aio, nng_aio_cancelfn fn, void *arg)
+__CPROVER_requires(AIO_PRE0(aio) && AIO_IDLE(aio))
+__CPROVER_requires(aio->a_timeout >= NNG_DURATION_DEFAULT)
+__CPROVER_assigns(aio->a_expire, aio->a_expire_ok, aio->a_skipped_callback, aio->a_stop, aio->a_sleep, aio->a_count, aio->a_result, aio->a_stopped, aio->a_abort, aio->a_cancel_fn, aio->a_cancel_arg, aio->a_expire_q->eq_next, __CPROVER_object_upto(aio->a_outputs, sizeof(aio->a_outputs)))
+__CPROVER_assigns(AIO_TASK_GHOSTS, g_now, g_clock_calls, g_exp_on, g_exp_add, g_cv_wake, VP_SYNC_GHOSTS)
+__CPROVER_ensures(VP_NO_LOCK_HELD && g_prep == __CPROVER_old(g_prep) + 1 && g_exec == __CPROVER_old(g_exec) && aio->a_skipped_callback == NULL)
+/* accepted or refused WITHOUT regard to a stale abort latch or a stale sleep token */
+__CPROVER_ensures(__CPROVER_return_value == !(__CPROVER_old(aio->a_stop) || __CPROVER_old(aio->a_expire_q->eq_stop) ||
+        (!__CPROVER_old(aio->a_use_expire) && aio->a_timeout == NNG_DURATION_ZERO) ||
+        (__CPROVER_old(aio->a_use_expire) && __CPROVER_old(aio->a_expire) <= g_now)))
+__CPROVER_ensures(!aio->a_abort && !aio->a_sleep && !aio->a_expire_ok)
+/* refused: exactly one completion, the provider's cancel function never installed, and the code is the stop
+ * code or the timeout code -- never the stale cancel code */
+__CPROVER_ensures(!__CPROVER_return_value ==> (g_dispatched == __CPROVER_old(g_dispatched) + 1 && !g_prepped && aio->a_cancel_fn == NULL && !g_exp_on && aio->a_count == 0))
+__CPROVER_ensures(!__CPROVER_return_value ==> aio->a_result == ((__CPROVER_old(aio->a_stop) || __CPROVER_old(aio->a_expire_q->eq_stop)) ? NNG_ESTOPPED : NNG_ETIMEDOUT))
+/* accepted: nothing dispatched, the cancel function is installed, clean result / count / outputs */
+__CPROVER_ensures(__CPROVER_return_value ==> (g_dispatched == __CPROVER_old(g_dispatched) && g_prepped && aio->a_cancel_fn == fn && aio->a_cancel_arg == arg))
+__CPROVER_ensures(__CPROVER_return_value ==> (aio->a_result == NNG_OK && aio->a_count == 0 && !aio->a_stop))
+__CPROVER_ensures(__CPROVER_return_value ==> (aio->a_outputs[0] == NULL && aio->a_outputs[1] == NULL && aio->a_outputs[2] == NULL && aio->a_outputs[3] == NULL))
+/* the deadline: never before (clock read in this call) + configured duration */
+__CPROVER_ensures((__CPROVER_return_value && !__CPROVER_old(aio->a_use_expire) && aio->a_timeout > 0) ==> aio->a_expire == g_now + (nni_time) aio->a_timeout)
+__CPROVER_ensures((__CPROVER_return_value && !__CPROVER_old(aio->a_use_expire) && aio->a_timeout < 0) ==> aio->a_expire == NNI_TIME_NEVER)
+__CPROVER_ensures((__CPROVER_return_value && __CPROVER_old(aio->a_use_expire)) ==> aio->a_expire == __CPROVER_old(aio->a_expire))
+__CPROVER_ensures(__CPROVER_return_value ==> (g_exp_on == (aio->a_expire != NNI_TIME_NEVER && fn != NULL)))
+;
 
 /* ======================================================================
  * aio.c: set-up and tear-down of the wrappers' stack aio.  Enforced here
